@@ -9,8 +9,81 @@ import (
 	"os"
 	"sort"
 
+	"github.com/johnkerl/miller/v6/pkg/types"
 	"github.com/johnkerl/miller/v6/pkg/verifrt"
 )
+
+func init() {
+	// content digests of channel messages refine the state key (see verifrt.DigestFn); VERIF_NODIGEST=1 switches them
+	// off (debugging / measuring only)
+	if verifrt.Instrumented && os.Getenv("VERIF_NODIGEST") == "" {
+		verifrt.DigestFn = messageDigest
+	}
+}
+
+// messageDigest: fast paths for the message types of Miller's pipeline channels, the reflective digest for the rest.
+func messageDigest(v any) uint64 {
+	const off, prime = 14695981039346656037, 1099511628211
+	h := uint64(off)
+	str := func(s string) {
+		for i := 0; i < len(s); i++ {
+			h = (h ^ uint64(s[i])) * prime
+		}
+		h = (h ^ 0xff) * prime
+	}
+	switch x := v.(type) {
+	case nil:
+		return 1
+	case bool:
+		if x {
+			return 3
+		}
+		return 2
+	case []*types.RecordAndContext:
+		h = (h ^ uint64(len(x))) * prime
+		for _, rc := range x {
+			if rc == nil {
+				str("nil")
+				continue
+			}
+			h = rc.Record.VerifDigest(h)
+			str(rc.Context.FILENAME)
+			h = (h ^ uint64(rc.Context.FILENUM)) * prime
+			h = (h ^ uint64(rc.Context.NR)) * prime
+			h = (h ^ uint64(rc.Context.FNR)) * prime
+			if rc.Context.JSONHadBrackets {
+				h = (h ^ 5) * prime
+			}
+			str(rc.OutputString)
+			if rc.EndOfStream {
+				h = (h ^ 7) * prime
+			}
+		}
+		return h
+	case []string:
+		h = (h ^ uint64(len(x))) * prime
+		for _, s := range x {
+			str(s)
+		}
+		return h
+	case [][]string:
+		h = (h ^ uint64(len(x))) * prime
+		for _, r := range x {
+			h = (h ^ uint64(len(r))) * prime
+			for _, s := range r {
+				str(s)
+			}
+		}
+		return h
+	case string:
+		str(x)
+		return h
+	case error:
+		str(x.Error())
+		return h
+	}
+	return verifrt.ReflectDigest(v)
+}
 
 type ExploreSpec struct {
 	// Body runs one complete execution (called on the controlled main
